@@ -50,6 +50,23 @@ impl Drop for Tracked {
     }
 }
 
+/// Zero-sized lent value with a destructor (drop guard / marker type): counted globally, the
+/// worker executes one case at a time.
+pub static ZST_MADE: std::sync::atomic::AtomicUsize = std::sync::atomic::AtomicUsize::new(0);
+pub static ZST_DROPPED: std::sync::atomic::AtomicUsize = std::sync::atomic::AtomicUsize::new(0);
+pub struct ZstGuard;
+impl ZstGuard {
+    fn new() -> ZstGuard {
+        ZST_MADE.fetch_add(1, std::sync::atomic::Ordering::SeqCst);
+        ZstGuard
+    }
+}
+impl Drop for ZstGuard {
+    fn drop(&mut self) {
+        ZST_DROPPED.fetch_add(1, std::sync::atomic::Ordering::SeqCst);
+    }
+}
+
 /// A second tracked type (different TypeId, same layout) so that neighbouring chain
 /// nodes of different types are exercised as well as neighbours of the same type.
 pub struct Tracked2(pub Tracked);
@@ -88,6 +105,8 @@ pub enum RefOp {
     Burst(u8, u8),
     /// instance .0 lends a value that owns a clone of that instance (`u.make_ref(u.clone())`)
     LendClone(u8),
+    /// instance .0 lends a zero-sized value that has a destructor
+    MakeZst(u8),
 }
 
 #[derive(Clone, Copy, Debug, PartialEq, Eq, Hash, Serialize, Deserialize)]
@@ -176,6 +195,9 @@ struct Book {
     releasable: Vec<u32>,
     /// ids of values configured with returns(): live as long as the shared state
     shared: Vec<u32>,
+    /// zero-sized guards lent per instance and not yet releasable / how many may have been dropped by now
+    zst_owned: Vec<usize>,
+    zst_releasable: usize,
 }
 
 impl Book {
@@ -191,6 +213,10 @@ impl Book {
             if self.reg.dropped(*id) != 0 {
                 return Err(format!("value {id} configured with returns() was dropped while the mock is alive"));
             }
+        }
+        let zd = ZST_DROPPED.load(std::sync::atomic::Ordering::SeqCst);
+        if zd > self.zst_releasable {
+            return Err(format!("{} zero-sized lent values were dropped while at most {} could have been released", zd, self.zst_releasable));
         }
         for id in &self.releasable {
             if self.reg.dropped(*id) > 1 {
@@ -288,6 +314,13 @@ fn run_phase<'a>(
                 });
                 stats.lent_clone += 1;
             }
+            RefOp::MakeZst(i) => {
+                let i = i as usize % n;
+                let r: &'a ZstGuard = insts[i].make_ref(ZstGuard::new());
+                let _ = r;
+                book.zst_owned[i] += 1;
+                stats.zst += 1;
+            }
             RefOp::Burst(i, k) => {
                 let i = i as usize % n;
                 for _ in 0..(k as usize % 4 + 1) * 64 {
@@ -331,6 +364,7 @@ struct Stats {
     make_mut: usize,
     mut_default: usize,
     lent_clone: usize,
+    zst: usize,
     threads: usize,
 }
 
@@ -405,7 +439,9 @@ fn execute_on(
     shared: Vec<u32>,
 ) -> Result<(bool, Vec<String>), String> {
     let n = insts.len();
-    let mut book = Book { reg: reg.clone(), owned: vec![vec![]; n], releasable: vec![], shared };
+    ZST_MADE.store(0, std::sync::atomic::Ordering::SeqCst);
+    ZST_DROPPED.store(0, std::sync::atomic::Ordering::SeqCst);
+    let mut book = Book { reg: reg.clone(), owned: vec![vec![]; n], releasable: vec![], shared, zst_owned: vec![0; n], zst_releasable: 0 };
     let mut salt = 0u32;
     let mut stats = Stats::default();
     for phase in &case.phases {
@@ -442,6 +478,7 @@ fn execute_on(
                     }
                 }
                 // earlier values of this instance's own chain may have been released now
+                book.zst_releasable += std::mem::take(&mut book.zst_owned[i]);
                 let earlier = std::mem::take(&mut book.owned[i]);
                 book.releasable.extend(earlier);
                 book.owned[i].push(id);
@@ -511,6 +548,7 @@ fn execute_on(
         if catch(move || drop(c)).is_err() {
             return Err("dropping a clone panicked".to_string());
         }
+        book.zst_releasable += std::mem::take(&mut book.zst_owned[i]);
         for id in &book.owned[i] {
             if reg.dropped(*id) != 1 {
                 return Err(format!("after dropping clone {i}, its lent value {id} was dropped {} times", reg.dropped(*id)));
@@ -536,6 +574,10 @@ fn execute_on(
             return Err(format!("after teardown value {id} was dropped {d} times (expected exactly once)"));
         }
     }
+    let (zm, zd) = (ZST_MADE.load(std::sync::atomic::Ordering::SeqCst), ZST_DROPPED.load(std::sync::atomic::Ordering::SeqCst));
+    if zm != zd {
+        return Err(format!("{zm} zero-sized values with a destructor were lent, {zd} destructors ran by the end of the teardown (each must run exactly once)"));
+    }
     let mut classes = vec![];
     if stats.make_mut > 0 {
         classes.push("make_mut-phase".to_string());
@@ -548,6 +590,9 @@ fn execute_on(
     }
     if stats.lent_clone > 0 {
         classes.push("lent-value-owning-a-clone".to_string());
+    }
+    if stats.zst > 0 {
+        classes.push("zero-sized-lent-value-with-destructor".to_string());
     }
     if stats.mut_default > 0 && stats.via_helper > 0 {
         classes.push("helper-lent-values-then-&mut-delegation".to_string());
@@ -629,6 +674,7 @@ fn op_strategy() -> impl Strategy<Value = RefOp> {
         2 => (i.clone(), 0..4u8).prop_map(|(a, b)| RefOp::LendReturned(a, b)),
         2 => i.clone().prop_map(RefOp::LendViaHelper),
         1 => i.clone().prop_map(RefOp::LendClone),
+        1 => i.clone().prop_map(RefOp::MakeZst),
         1 => (i, 0..4u8).prop_map(|(a, b)| RefOp::Burst(a, b)),
     ]
 }
